@@ -121,13 +121,13 @@ func H_C07_proba_nt_nogap() {
 	vfProbaNt(n, L, set, false)
 }
 
-// H_C07_proba_nt_nogap_deep: as H_C07_proba_nt_nogap, 2x2 with all codes, 3x2 with 3 codes.
-// bounds: 2 rows x 2 sites, codes 1..15; 3 rows x 2 sites, codes in {C, Y, B}
+// H_C07_proba_nt_nogap_deep: as H_C07_proba_nt_nogap, 2x2 with 8 codes, 3x2 with 3 codes.
+// bounds: 2 rows x 2 sites, codes in {A,C,G,T,R,Y,B,N}; 3 rows x 2 sites, codes in {C, Y, B}
 // outside: IEEE rounding is outside the claim: floats are exact reals
 //verif: tier=thorough
 func H_C07_proba_nt_nogap_deep() {
 	if nondetRange(0, 1) == 0 {
-		vfProbaNt(2, 2, nil, false)
+		vfProbaNt(2, 2, []uint8{vfA, vfC, vfG, vfT, vfA | vfG, vfC | vfT, vfC | vfG | vfT, 15}, false)
 	} else {
 		vfProbaNt(3, 2, vfSetB, false)
 	}
